@@ -30,6 +30,7 @@ type Obligation struct {
 	entry     *State
 	skolems   map[string]Value
 	resultDyn types.Type // dynamic type of the first result when it is an interface holding a module type
+	letDyn    map[string]types.Type // dynamic types of let-bound interface values
 }
 
 type schema struct {
@@ -93,6 +94,21 @@ func (x *Exec) oblige(st *State, name string, goal *Term, what string) {
 		o.entry = x.entryState
 		o.skolems = x.curSkolems
 		o.resultDyn = x.curResultDyn
+		if ct != nil && x.curEnv != nil {
+			for _, sst := range ct.script {
+				if sst.kind != "let" {
+					continue
+				}
+				if lv, ok := x.curEnv.lookup(sst.let.name); ok {
+					if ifc, ok := lv.(*Iface); ok && ifc.dyn != nil {
+						if o.letDyn == nil {
+							o.letDyn = map[string]types.Type{}
+						}
+						o.letDyn[sst.let.name] = ifc.dyn
+					}
+				}
+			}
+		}
 		x.obls = append(x.obls, o)
 	}
 }
@@ -668,7 +684,7 @@ func (x *Exec) evalLetFork(st *State, env *Env, e Expr) []specOut {
 		if _, bound := env.lookup(id.name); !bound {
 			_, isSpec := x.specs[id.name]
 			switch id.name {
-			case "sq", "abs", "min", "max", "sqrt", "ite", "real", "floor", "len", "old", "pre", "isnil", "sin", "cos", "nsent", "sent", "samecell", "maphas", "mapval", "nev", "evarg", "evbefore", "evres":
+			case "sq", "abs", "min", "max", "sqrt", "ite", "real", "floor", "len", "old", "pre", "isnil", "sin", "cos", "nsent", "sent", "samecell", "maphas", "mapval", "nev", "evarg", "evbefore", "evres", "merged":
 				isSpec = true
 			}
 			if isSpec {
